@@ -129,6 +129,16 @@ pub fn run_pauli_exp(case: &Value) -> Value {
     let cj = |z: Complex<f64>| json!([hexf(z.re), hexf(z.im)]);
     let mut out = match mode {
         "exp" | "exp_factor" | "neg_i_dt" => {
+            // "prev": exponentials of the same string with OTHER coefficients, taken first on this thread (results dropped): what the
+            // judged call returns must not depend on them
+            if let Some(prev) = case.get("prev").and_then(|p| p.as_array()) {
+                for c in prev {
+                    let z = cx(c);
+                    let mut t = case["term"].clone(); t["coef"] = json!([hexf(z.re), hexf(z.im)]);
+                    let q = build_ps(&t, None);
+                    let _ = q.apply_exp(&st); let _ = q.apply_exp_factor(&st, Complex::new(1.0, 0.0));
+                }
+            }
             let alpha = match mode { "exp" => coef, "exp_factor" => coef * factor, _ => coef * Complex::new(0.0, -dt) };
             let r = match mode {
                 "exp" => ps.apply_exp(&st),
